@@ -192,3 +192,12 @@ Require Copia.Proofs.TieProtocol.
 Theorem C20_model_is_translation_of_source : TieProtocol.protocol_model_is_translation.
 Proof. exact TieProtocol.protocol_model_is_translation_holds. Qed.
 Print Assumptions C20_model_is_translation_of_source.
+
+(** The CLI readers are the translation of main.rs `validate_block_size`, `run_patch`, `run_delta` as the source has them
+    now: the input file is read, a refused file or a rejected block size ends the command with an error BEFORE the
+    engine is constructed (its constructor asserts) and before another file is opened or created; the engine is only
+    ever built with a block size validate_block_size accepts (Gen/CliReadersGen.v, Proofs/TieCliReaders.v). *)
+Require Copia.Proofs.TieCliReaders.
+Theorem C20_cli_readers_are_translation_of_source : TieCliReaders.cli_readers_are_translation.
+Proof. exact TieCliReaders.cli_readers_are_translation_holds. Qed.
+Print Assumptions C20_cli_readers_are_translation_of_source.
